@@ -225,9 +225,22 @@ def reopen_validates_marker(ctx, s):
                 if len(pos) == 1 and contains_value(pos[0], lambda x: x[0] == "call" and x[1].rsplit("::", 1)[-1] == "len"
                                                     and "fs" in x[1]):
                     short = True
-        s.add("S-DOM", fn, "set_len-only-if-new", "set_len", info["sp"], PROVED if short else VIOLATION,
-              "resizing on open is dominated by the 'file shorter than a header' test" if short else
-              "the file can be resized on open although it already holds a header (truncation or zero-fill of live data)", b)
+        verdict = PROVED if short else VIOLATION
+        if not short:
+            an_ = ctx.E.an(fn)
+            # the length test is made and the decision reaches set_len through a value computed from it (an enum, a flag
+            # joined from both arms): conditional on something, but not read off as the length test
+            lentest = any(i_["kind"] == "switch" and contains_value(i_["discr"], lambda x: x[0] == "call" and x[1].rsplit("::", 1)[-1] == "len" and "fs" in x[1])
+                          for i_ in an_.term.values())
+            conditional = any(f[0] in ("variant", "eqc", "true", "false", "nec", "notvariant", "eq", "ne") and isinstance(f[1], tuple) and
+                              not contains_value(f[1], lambda x: x[0] == "try") for f in facts)
+            if lentest and conditional:
+                verdict = UNDECIDED
+        s.add("S-DOM", fn, "set_len-only-if-new", "set_len", info["sp"], verdict,
+              "resizing on open is dominated by the 'file shorter than a header' test" if verdict == PROVED else
+              ("the file can be resized on open although it already holds a header (truncation or zero-fill of live data)"
+               if verdict == VIOLATION else
+               "the file-length test is made and set_len is conditional on a value computed from it: not decided"), b)
 
 
 # ----------------------------------------------------------------------------- reads
